@@ -101,6 +101,30 @@ func curGoid() int {
 	return id
 }
 
+// leftover holds the goroutines that existed when the previous run ended: whatever they still do
+// does not belong to the current run.
+var leftover = map[int]bool{}
+
+var gidRe = regexp.MustCompile(`(?m)^goroutine (\d+) \[`)
+
+func allGoroutines() map[int]bool {
+	buf := make([]byte, 1<<20)
+	n := runtime.Stack(buf, true)
+	for n >= len(buf) {
+		buf = make([]byte, 2*len(buf))
+		n = runtime.Stack(buf, true)
+	}
+	m := map[int]bool{}
+	me := curGoid()
+	for _, x := range gidRe.FindAllSubmatch(buf[:n], -1) {
+		id, _ := strconv.Atoi(string(x[1]))
+		if id != me {
+			m[id] = true
+		}
+	}
+	return m
+}
+
 var (
 	iqRe     = regexp.MustCompile(`(?s)<iq\b[^>]*?(?:/>|>.*?</iq>)`)
 	idRe     = regexp.MustCompile(`^<iq\b[^>]*?\bid="([^"]*)"`)
@@ -140,13 +164,9 @@ func runSchedule(sc Scenario, choices []int) result {
 	}
 	sched := vt.NewSched()
 	sched.AutoRegister = true
-	// goroutine ids grow: anything older than this run's first goroutine is a leftover of an earlier run
-	idc := make(chan int)
-	go func() { idc <- curGoid() }()
-	base := <-idc
 	xmpp.VerifHook = func(point, id string) {
-		if !sched.Mine() && curGoid() < base {
-			return // a goroutine left over from an earlier run
+		if leftover[curGoid()] {
+			return // a goroutine left over from an earlier run (a run that ended stuck leaves some behind)
 		}
 		if strings.HasPrefix(point, "serve.") || strings.HasPrefix(point, "resp.") {
 			lg.Add(vt.Ev{"ev": "hook", "point": point})
@@ -208,7 +228,7 @@ func runSchedule(sc Scenario, choices []int) result {
 	kOf := func(id string) int { mu.Lock(); defer mu.Unlock(); return idOf[id] }
 
 	ctx, cancel := context.WithCancel(context.Background())
-	cancelled, inClosed := false, false
+	cancelled, inClosed, served := false, false, false
 	doCancel := func() {
 		cancelled = true
 		lg.Add(vt.Ev{"ev": "cancel"})
@@ -332,6 +352,7 @@ func runSchedule(sc Scenario, choices []int) result {
 			}
 		}()
 		sess.Serve(top)
+		served = true
 		lg.Add(vt.Ev{"ev": "serve_ret"})
 	})
 
@@ -381,6 +402,11 @@ func runSchedule(sc Scenario, choices []int) result {
 	res, note := sched.Drive(choices, 3000, func() bool {
 		// everybody is blocked.  What a real peer / caller may legitimately do next: a caller whose
 		// request gets no answer gives up (context); at the very end the peer ends its stream.
+		// But: bytes of the peer lying unread while the serve loop is alive and everybody is blocked is
+		// a stall of the library, not a silent peer - nobody may "help" it by cancelling.
+		if !served && !inClosed && !conn.InputEmpty() {
+			return false
+		}
 		if !cancelled && len(reallyBlocked()) > 1 {
 			doCancel()
 			return true
@@ -407,6 +433,8 @@ func runSchedule(sc Scenario, choices []int) result {
 	sched.Stop()
 	cancel()
 	conn.CloseIn()
+	xmpp.VerifHook = nil
+	leftover = allGoroutines()
 	return result{evs: lg.Events(), res: res, note: note}
 }
 
